@@ -10,7 +10,7 @@ require (
 
 require (
 	github.com/klauspost/compress v1.18.4
-	modernc.org/b/v2 v2.1.10 // indirect
+	modernc.org/b/v2 v2.1.10
 )
 
 replace (
